@@ -75,6 +75,10 @@ type Options struct {
 	KeepFile     bool
 	StopAfterOps int // execute only this many ops (prefix runs), 0 = all
 	SkipValues   bool
+	// DetectClobber keeps the attributed write log and, when a write straddles
+	// space written for another structure, reports only that (every other
+	// oracle failure of the run is a consequence of the corrupted file).
+	DetectClobber bool
 }
 
 // Exec is the executor state.
@@ -99,6 +103,10 @@ type Exec struct {
 func (e *Exec) Path() string { return e.path }
 
 func (e *Exec) violate(oracle, class, detail string) {
+	// context: did the failure need a read-modify-write session (OpenForWrite)?
+	if e.out.Probes["rmw_session"] > 0 {
+		class += "@rmw"
+	}
 	e.out.Violations = append(e.out.Violations, trace.Violation{
 		Property: e.o.Property, Oracle: oracle, Class: class, Detail: detail, OpIndex: e.opIdx})
 }
@@ -113,6 +121,10 @@ func Run(t *trace.Trace, o Options) *Outcome {
 	e := &Exec{t: t, o: o, m: model.New(), dws: map[string]*hdf5.DatasetWriter{}, gws: map[string]*hdf5.GroupWriter{}}
 	e.out = &Outcome{Probes: map[string]int{}, Fired: map[string]int{}}
 	e.sim = disk.NewSim()
+	if o.DetectClobber {
+		o.KeepLog, o.Attribute = true, true
+		e.o = o
+	}
 	e.sim.KeepLog = o.KeepLog
 	e.sim.Attribute = o.Attribute
 	e.sim.SetFaults(t.Faults)
@@ -133,6 +145,7 @@ func Run(t *trace.Trace, o Options) *Outcome {
 	}
 	defer e.abandon()
 
+	e.sim.CurOp = -1
 	e.createFile()
 	nops := len(t.Ops)
 	if o.StopAfterOps > 0 && o.StopAfterOps < nops {
@@ -140,6 +153,7 @@ func Run(t *trace.Trace, o Options) *Outcome {
 	}
 	for i := 0; i < nops; i++ {
 		e.opIdx = i
+		e.sim.CurOp = i
 		op := &t.Ops[i]
 		res := e.doOp(op)
 		e.out.Results = append(e.out.Results, res)
@@ -152,6 +166,18 @@ func Run(t *trace.Trace, o Options) *Outcome {
 	e.opIdx = nops
 	// final restart: Close + Open + compare
 	e.restart("open", true)
+	if o.DetectClobber {
+		if cls := ClobberClass(e.sim.Log); cls != "" {
+			e.out.Probes["clobber-detected"]++
+			if len(e.out.Violations) > 0 {
+				first := e.out.Violations[0]
+				e.out.Violations = []trace.Violation{{Property: o.Property, Oracle: "overlap", Class: cls,
+					Detail: "a write straddles space last written for another structure; first consequence: " + first.Signature() + ": " + first.Detail, OpIndex: first.OpIndex}}
+			} else {
+				e.out.Probes["clobber-without-consequence"]++
+			}
+		}
+	}
 	e.out.IOSteps = e.sim.Step
 	e.out.Fired = e.sim.Fired
 	e.out.FiredSteps = e.sim.FiredSteps
